@@ -152,14 +152,14 @@ impl<const M: usize> FromStr for KSecretKey<M> {
     /// Create a new `KSecretKey` from a raw AWS secret key.
     fn from_str(raw: &str) -> Result<Self, KeyTooLongError> {
         let len = raw.len();
-        if len > M - 4 {
+        if M < 4 || len > M - 4 {
             return Err(KeyTooLongError);
         }
 
         let mut prefixed_key = [0; M];
 
         prefixed_key[..4].copy_from_slice(b"AWS4");
-        prefixed_key[4..].copy_from_slice(raw.as_bytes());
+        prefixed_key[4..4 + len].copy_from_slice(raw.as_bytes());
         Ok(Self {
             prefixed_key,
             len: len + 4,
